@@ -206,6 +206,11 @@ def lossReason (evs : List Event) (id : Nat) : Bool :=
     | .call .A0 c .e => c == id
     | .call .B c .e => c == id
     | .call .Y c .e => c == id
+    -- the fetch of the pending rows / further results of a streamed answer failed: the stream is
+    -- given up and its connection closed (fix 7cb439b), or its unread packets would be taken
+    -- for the answer to the next statement
+    | .call .M c .e => c == id
+    | .call .N c .e => c == id
     | .call _ c .z => c == id
     | _ => false
 
